@@ -77,15 +77,15 @@ def check_state(a, res, label, rep, T, variant="plain", rewrite=True):
     cps = a.cpaths()
     raw = [open(p, "rb").read() for p in cps if os.path.exists(p)]
     if not raw:
-        return
+        return None
     if len(set(raw)) != 1:
         V.append(("copies-differ", "%s: content copies are not byte-identical" % label, rep))
-        return
+        return None
     try:
         c = cnt.decode(raw[0])
     except cnt.DecodeError as ex:
         V.append(("tool-written-content-undecodable", "%s: %s" % (label, ex), rep))
-        return
+        return None
     if cnt.encode(c) != raw[0]:
         res["counters"]["codec_roundtrip_mismatch"] = res["counters"].get("codec_roundtrip_mismatch", 0) + 1
     res["counters"]["states_checked"] = res["counters"].get("states_checked", 0) + 1
@@ -105,7 +105,7 @@ def check_state(a, res, label, rep, T, variant="plain", rewrite=True):
             V.append(("sanitizer:" + A.san_key(s_), "%s: %s" % (label, s_[:2000]), rep))
         if r1.rc != 0:
             V.append(("list-fails-on-tool-written-content", "%s: list rc=%s %s" % (label, r1.rc, r1.err[-200:].decode("latin-1")), rep))
-            return
+            return c
         dumps.append((files, links, blocks, summ))
         if first == 0:
             if files != efiles:
@@ -127,12 +127,51 @@ def check_state(a, res, label, rep, T, variant="plain", rewrite=True):
             V.append(("sanitizer:" + A.san_key(s_), "%s: %s" % (label, s_[:2000]), rep))
         if r.rc != 0:
             V.append(("rewrite-fails", "%s: test-rewrite rc=%s %s" % (label, r.rc, r.err[-200:].decode("latin-1")), rep))
-            return
+            return c
         now = [open(p, "rb").read() for p in cps]
         if any(x != raw[0] for x in now):
             i = next((k for k in range(min(len(now[0]), len(raw[0]))) if now[0][k] != raw[0][k]), None)
             V.append(("rewrite-changes-bytes", "%s: test-rewrite changed the content file (%d -> %d bytes, first difference at %s)" %
                       (label, len(raw[0]), len(now[0]), i), rep))
+    return c
+
+
+def conservation(a, fs, prev, cur, res, label, rep):
+    """What the saved state says the parity contains must not silently shrink: a block that the previous saved state
+    recorded as contained in the parity (synced block of a file, or deleted block kept with its hash) may vanish from
+    the next saved state only if its stripe was really synced again, i.e. every block now recorded there is synced and
+    the parity equals the generator applied to exactly those blocks. Otherwise the state that was in memory (pending
+    deletions, their hashes, the disk mapping) was lost in the save."""
+    from .. import parity as P
+    V = res["violations"]
+    pm = prev.stripe_map()
+    cm = cur.stripe_map()
+    had = set()
+    for pos, ents in pm.items():
+        for (di, kind, f, i, st, h) in ents:
+            if st == BLK or kind == "deleted":
+                had.add((prev.maps[di]["name"], pos))
+    have = set()
+    for pos, ents in cm.items():
+        for (di, kind, f, i, st, h) in ents:
+            have.add((cur.maps[di]["name"], pos))
+    dropped = sorted(had - have, key=lambda x: x[1])
+    if not dropped:
+        return
+    res["counters"]["dropped_records_judged"] = res["counters"].get("dropped_records_judged", 0) + len(dropped)
+    poss = sorted({p_ for (_n, p_) in dropped if cm.get(p_)})
+    bad = [p_ for p_ in poss if any(e[4] != BLK for e in cm[p_])]
+    if bad:
+        who = [x for x in dropped if x[1] == bad[0]]
+        V.append(("record-of-parity-contents-lost/stripe-still-unsynced", "%s: %s recorded in the previous state as contained in the parity of "
+                  "stripe %d vanished from the saved state although that stripe still holds unsynced blocks" % (label, evidence.jsonable(who), bad[0]), rep))
+        return
+    probs, st = P.check_parity(a, fs, cur, positions=set(poss))
+    if probs:
+        pr = probs[0]
+        who = [x for x in dropped if x[1] == pr["pos"]]
+        V.append(("record-of-parity-contents-lost/parity-still-holds-the-dropped-block", "%s: %s vanished from the saved state but stripe %d was not "
+                  "synced again (level %d: %s): pending deletions were lost in the save" % (label, evidence.jsonable(who), pr["pos"], pr["level"], pr["why"]), rep))
 
 
 def run_reached(case):
@@ -147,14 +186,47 @@ def run_reached(case):
     try:
         A.populate(fs, rng, nfiles=rng.randint(4, 16), hostile=0.3)
         nsteps = 8 if tier == "quick" else 14
+        prev = None
+        # a third of the cases: a whole disk is emptied at some step and the next sync is partial / killed, so that a
+        # disk with nothing but pending deletions has to survive a save
+        empty_at = rng.randint(2, nsteps - 2) if (idx % 3 == 1 and len(a.disks) >= 2) else None
+        force_partial = False
+        force_full = False
+        blocks_on = lambda d: sum((len(fs.entries[d][s_][1]) + a.bs - 1) // a.bs for (_d, s_) in fs.files(d))
+        single = None
+        if empty_at is not None and rng.random() < 0.6:
+            # the disk to be emptied holds one file only (one extent), reaching further into the parity than any other disk
+            single = rng.choice(a.disks)
+            fs.clear_disk(single)
+            nb = max(blocks_on(d) for d in a.disks if d != single) + rng.randint(-1, 4)
+            fs.write(single, b"single-big-file", A.gen_bytes(rng, max(1, nb) * a.bs - rng.choice([0, 1, 17]), "rand"))
+            force_full = True
         for step in range(nsteps):
             T += rng.randint(100, 100000)
             k = rng.random()
-            if k < 0.3:
+            if force_full:
+                k = 0.5
+            if step == empty_at:
+                d = max(a.disks, key=blocks_on) if rng.random() < 0.7 else rng.choice(a.disks)
+                if single is not None:
+                    d = single
+                fs.clear_disk(d)
+                hist.append("empty-disk %d" % d)
+                force_partial = True
+                continue
+            if k < 0.3 and not force_partial:
                 scen.mutate(fs, rng, rng.randint(1, 5), hostile=0.3)
                 hist.append("fs")
                 continue
-            if k < 0.65:
+            if force_partial:
+                force_partial = False
+                args = list(rng.choice([["--test-kill-after-sync"], ["-B", str(rng.randint(1, 3))], ["-S", str(rng.randint(0, 2)), "-B", str(rng.randint(1, 3))]]))
+                cmd = "sync"
+                args = ["-E", "-Z"] + args
+            elif force_full:
+                force_full = False
+                cmd, args = "sync", ["-E", "-Z"]
+            elif k < 0.65:
                 args = list(rng.choice([[], [], ["--test-kill-after-sync"], ["-S", str(rng.randint(0, 4)), "-B", str(rng.randint(1, 6))],
                                         ["-R"], ["-h"], ["--test-force-autosave-at", "3"], ["-N"]]))
                 cmd = "sync"
@@ -183,7 +255,12 @@ def run_reached(case):
                 fs.adopt_touch()
             hist.append((cmd, args, r.rc))
             rep = {"case": list(case), "cfg": cfg, "history": hist[-10:]}
-            check_state(a, res, "after %s %s (rc %s)" % (cmd, " ".join(args), r.rc), rep, T + 50, variant)
+            lab = "after %s %s (rc %s)" % (cmd, " ".join(args), r.rc)
+            cur = check_state(a, res, lab, rep, T + 50, variant)
+            if prev is not None and cur is not None:
+                conservation(a, fs, prev, cur, res, lab, rep)
+            if cur is not None:
+                prev = cur
             if _unmatched(res) >= 3:
                 break
         res["nontrivial"] = res["counters"].get("states_checked", 0) > 0
